@@ -95,7 +95,7 @@ def oracle_tag(spec):
 
 def pkg_targets(pk):
     """[(receiver, name)] the targets of an abstract package (exported functions and namespace methods)"""
-    return ([("", f["name"]) for f in pk["funcs"] if not f.get("foreign")] +
+    return ([("", f["name"]) for f in pk["funcs"] if not f.get("foreign") and f["sig"] != "bad"] +
             [(n["name"], m["name"]) for n in pk["ns"] for m in n["methods"]])
 
 
@@ -144,6 +144,8 @@ class NameClash(Exception):
 
 # ------------------------------------------------------------------ rendering
 def body(sig, did):
+    if sig == "bad":       # a parameter type mage does not support: an exported function, no target
+        return '(f float64) { probe.Must("%s") }' % did
     if sig == "plain":
         return '() { probe.Must("%s") }' % did
     if sig == "err":
@@ -155,7 +157,7 @@ def render_targets(out, pk, path, need, part=None):
     for f in pk["funcs"]:
         if f.get("file") != part:
             continue
-        out.append("// %s does something." % f["name"])
+        out.append("// %s %s." % (f["name"], f.get("doc") or "does something"))
         if f.get("longdoc"):       # a very long doc comment
             out += ["// line %d of the description of %s: %s." % (k, f["name"], "lorem ipsum " * 8) for k in range(f["longdoc"])]
         out.append("func %s%s\n" % (f["name"], body(f["sig"], defid(path, "", f["name"]))))
@@ -627,7 +629,7 @@ def cpkg(pk, gofiles=None):
     if gofiles is None:
         funcs = [cfunc("", r, n) for r, n in pkg_targets(pk)]
     else:
-        funcs = [cfunc("", "", f["name"]) for f in pk["funcs"] if (f.get("file") or pk["pkg"]) + ".go" in gofiles]
+        funcs = [cfunc("", "", f["name"]) for f in pk["funcs"] if (f.get("file") or pk["pkg"]) + ".go" in gofiles and f["sig"] != "bad"]
         funcs += [cfunc("", n["name"], m["name"]) for n in pk["ns"] for m in n["methods"]]
     return "{| pk_name := %s; pk_funcs := %s; pk_default := %s; pk_aliases := %s |}" % (
         cs(pk["pkg"]), cl(funcs), "None" if not pk.get("default") else "(Some %s)" % cs(pk["default"]),
